@@ -53,18 +53,18 @@ def group_case(out: Outcome, rng, classes: list[str], share_cfg: bool, with_cb: 
         return rs
 
     # alone runs (sequential, fresh objects)
-    np.random.seed(seed)
     alone = build()
     if any(r.det is None for r in alone):
         return
+    np.random.seed(seed)      # after construction: KSWINConfig re-seeds the global generator when it is built
     for r, xs in zip(alone, streams):
         for x in xs:
             r.update(x)
     runners.extend(alone)
     rep_base = {"classes": classes, "params": params, "shared_config": share_cfg, "history_callback": with_cb, "streams": streams}
     for sched in schedules(lens, rng, limit):
-        np.random.seed(seed)
         rs = build()
+        np.random.seed(seed)
         pos = [0] * k
         for i in sched:
             rs[i].update(streams[i][pos[i]])
@@ -77,8 +77,8 @@ def group_case(out: Outcome, rng, classes: list[str], share_cfg: bool, with_cb: 
                 return
         out.count("schedules_run")
     # repeated run agrees exactly
-    np.random.seed(seed)
     again = build()
+    np.random.seed(seed)
     for r, xs in zip(again, streams):
         for x in xs:
             r.update(x)
